@@ -280,9 +280,12 @@ def check_op(prog, rep, m, name):
         rep.add('L5', f, name, 'reshape of the per-cell list', f.node.lineno, None, 'no reshape found')
     # ---- ref list row-major
     if 'ref_var' in f.params:
-        refs = f.local_assigns().get('ref_list', [])
+        # the reference list: the local built from raster[ref_var] (whatever it is called)
+        refn = next((n_ for n_, vs_ in f.local_assigns().items() for v_ in vs_ if isinstance(v_, ast.AST) and
+                     'raster[ref_var]' in norm(v_) and n_ not in cells), 'ref_list')
+        refs = f.local_assigns().get(refn, [])
         ok = False
-        txt = 'ref_list'
+        txt = refn
         if len(refs) == 1 and isinstance(refs[0], ast.AST):
             v = refs[0]
             txt = norm(v)
@@ -322,7 +325,8 @@ def check_op(prog, rep, m, name):
             refname = tgt.elts[others[0]].id
             # the companion list must be the row-major reference list
             rep.add('L1-ref', f, name, 'zip companion %s' % norm(loop.iter.args[others[0]]), loop.lineno,
-                    norm(loop.iter.args[others[0]]) == 'ref_list', 'the per-cell tuples must be paired with the row-major reference list')
+                    norm(loop.iter.args[others[0]]) == (refn if 'ref_var' in f.params else 'ref_list'),
+                    'the per-cell tuples must be paired with the row-major reference list')
     elif isinstance(tgt, ast.Name):
         comb = tgt.id
     else:
@@ -438,8 +442,8 @@ def check_op(prog, rep, m, name):
         ok = False
         for i, c in appends:
             got = norm(inline(c.args[0], {k: v for k, v in env.items() if k != comb}))
-            ok = got in ('%s[ref - 1]' % comb,)
-            if got == 'sorted(%s)[ref - 1]' % comb:
+            ok = got in ('%s[%s - 1]' % (comb, refname),)
+            if got == 'sorted(%s)[%s - 1]' % (comb, refname):
                 ok = sorted_ok = True        # an ascending sorted copy indexed directly
         rep.add('L4', f, name, 'ascending sort then %s' % got, loop.lineno, ok and sorted_ok,
                 'rank must sort the cell values ascending (no reverse) and take element ref - 1')
